@@ -274,6 +274,22 @@ pub fn adversarial() -> Vec<(String, Vec<u8>)> {
         out.push((format!("json_long_string_{}", n), [b"\"".to_vec(), rep(b"\\u0041", n), b"\"".to_vec()].concat()));
         out.push((format!("toml_long_key_{}", n), [rep(b"k", n), b" = 1\n".to_vec()].concat()));
     }
+    // MessagePack nests through 16- and 32-bit headers (non-minimal widths)
+    for n in [1_000usize, 30_000, 1_000_000] {
+        out.push((format!("msgpack_array16_nest_{}", n), [rep(b"\xdc\x00\x01", n), b"\xc0".to_vec()].concat()));
+        out.push((format!("msgpack_array32_nest_{}", n), [rep(b"\xdd\x00\x00\x00\x01", n), b"\xc0".to_vec()].concat()));
+        out.push((format!("msgpack_map16_nest_{}", n), [rep(b"\xde\x00\x01\xa1k", n), b"\xc0".to_vec()].concat()));
+        out.push((format!("msgpack_map32_nest_{}", n), [rep(b"\xdf\x00\x00\x00\x01\xa1k", n), b"\xc0".to_vec()].concat()));
+        out.push((format!("msgpack_map32_keynest_{}", n), rep(b"\xdf\x00\x00\x00\x01", n)));
+    }
+    // chains of headers that each declare a huge count: every one must be
+    // refused at once, whatever follows
+    for n in [1usize, 1024] {
+        out.push((format!("msgpack_chained_array32_max_{}", n), [rep(b"\xdd\xff\xff\xff\xff", n), b"\xc0".to_vec()].concat()));
+        out.push((format!("msgpack_chained_map32_max_{}", n), [rep(b"\xdf\xff\xff\xff\xff", n), b"\xc0\xc0".to_vec()].concat()));
+        out.push((format!("msgpack_chained_array16_max_{}", n), [rep(b"\xdc\xff\xff", n), b"\x01".to_vec()].concat()));
+        out.push((format!("msgpack_sibling_array32_max_{}", n), [b"\xdc\xff\xff".to_vec(), rep(b"\xdd\xff\xff\xff\xff\xc0", n)].concat()));
+    }
     // length prefixes
     for (name, bytes) in [
         ("msgpack_array32_max", &b"\xdd\xff\xff\xff\xff"[..]),
